@@ -142,3 +142,26 @@ Definition guard_F5 (v : string) : bool := mem_ascii "$"%char (unescape_or_empty
 
 (** C08-F6: an X-Forwarded-Uri whose path does not parse (malformed escape) *)
 Definition guard_F6 (p : string) : bool := negb (wellformed p).
+
+(** * what an accepted request looks like (stated by [C08_accepted_request*]) *)
+
+(** what [create_url_q] writes into the request line for a `no_decode` rule: the
+    request path as it is, after the rule's prefix rewriting *)
+Definition expected_wire (b : backend) (p : string) : string :=
+  match b_rw b with Some rw => transform_path rw p | None => p end.
+
+(** the accepted request was matched by a rule [r] with id [rid] through one of its path
+    expressions [t] that matches the path as it is spelled; the captured values are the
+    segments at [t]'s wildcards, decoded as the rule's setting says; `off` never accepts an
+    encoded slash; `no_decode` sends upstream the path as it is after the prefix rewriting,
+    whenever net/url writes that path unchanged (well-formed, valid as an encoded path) *)
+Definition accepted_spec (rules : list rule) (p rid : string) (cs : caps) (up : option hurl) : Prop :=
+  exists r t raw,
+    In r rules /\ r_id r = rid /\ In t (r_routes r) /\
+    rmatch (rt_pat t) (segs_of p) = true /\
+    route_caps (rt_pat t) (segs_of p) = Some raw /\
+    cs = map (fun kv => (fst kv, spec_capture (r_setting r) (snd kv))) raw /\
+    (r_setting r = Off -> enc_slash p = false) /\
+    (r_setting r = NoDecode -> forall b, r_backend r = Some b ->
+       wfenc (expected_wire b p) -> valid_encoded (expected_wire b p) = true -> valid_encoded p = true ->
+       exists u', up = Some u' /\ wire_path u' = expected_wire b p).
